@@ -15,6 +15,7 @@ import (
 
 // Engine symbolically executes one harness. A fresh Engine (and smt.Ctx) is used per harness.
 type Engine struct {
+	scalarObjs []*smt.Term // bases of the single (non-array) objects allocated so far
 	C  *smt.Ctx
 	M  *memCtx
 	ly *layouts
@@ -210,6 +211,14 @@ func (e *Engine) constrain(v Value) {
 			e.M.baseLike[t.ID] = true
 			// unknown references never designate a package-level variable of the program under verification
 			e.axiom(c.Or(c.Ult(t, e.k64(globalStart)), c.Ule(e.k64(rodataStart), t)))
+			// typed separation: the backing array of a slice read from memory that was cut (loop head, contract frame) is
+			// never one of the single (non-array) objects allocated so far - Go cannot make a slice out of those. Byte
+			// slices are exempt: unsafe reinterpretation of a scalar as bytes is an idiom of the code under contract.
+			if st > 0 && lf.Ptee != nil && !isByteLike(lf.Ptee) {
+				for _, o := range e.scalarObjs {
+					e.axiom(c.Not(c.Eq(t, o)))
+				}
+			}
 		case lkIndex, lkLen, lkCap:
 			e.axiom(c.Ult(t, e.k64(maxLen)))
 			e.markSmall(t)
@@ -312,6 +321,25 @@ func (e *Engine) ptrTo(base, idx *smt.Term, pl place, ptrType types.Type) Value 
 	return Value{T: ptrType, L: []*smt.Term{base, idx, e.k64(uint64(e.pl.intern(pl)))}}
 }
 
+func isByteLike(t types.Type) bool {
+	b, ok := t.Underlying().(*types.Basic)
+	return ok && (b.Kind() == types.Uint8 || b.Kind() == types.Int8)
+}
+
+func hasArray(t types.Type) bool {
+	switch u := t.Underlying().(type) {
+	case *types.Array:
+		return true
+	case *types.Struct:
+		for i := 0; i < u.NumFields(); i++ {
+			if hasArray(u.Field(i).Type()) {
+				return true
+			}
+		}
+	}
+	return false
+}
+
 // newObject allocates a zeroed object of type t and returns a pointer value of type ptrType.
 func (e *Engine) newObject(st *State, t types.Type, ptrType types.Type) Value {
 	if at, ok := t.Underlying().(*types.Array); ok {
@@ -319,6 +347,9 @@ func (e *Engine) newObject(st *State, t types.Type, ptrType types.Type) Value {
 		return e.ptrTo(base, e.k64(0), place{Root: at.Elem(), Ptee: t, ArrayOf: true}, ptrType)
 	}
 	base := e.allocZero(st, t)
+	if !hasArray(t) && len(e.scalarObjs) < 64 {
+		e.scalarObjs = append(e.scalarObjs, base)
+	}
 	return e.ptrTo(base, e.k64(0), place{Root: t, Ptee: t}, ptrType)
 }
 
